@@ -463,3 +463,44 @@ def rule_presize_consumed(ctx):
     else:
         ctx.holds("SETLENUSE", key, f.where(), "a pending pre-sizing request is seen before every seek/write on the element (%d sites)" % a.ios, nontrivial=True)
     return 1
+
+
+def rule_contiguity_full_extent(ctx):
+    """CONTIG (C03): NCvcmaxcontig finds the slowest dimension from which a hyperslab is one contiguous run of the file.  A
+    dimension can be merged with the next slower one only when the slab covers it completely, i.e. its edge equals the whole
+    dimension.  The test that stops the merge therefore compares the edge with the dimension size alone; if it is made relative
+    to the start coordinate (`shape - origin`, the quantity of the range check just before it), a slab that starts inside a row
+    and runs to its end is taken for a full row and continues at the beginning of the next row instead of at its own column."""
+    from .codec import ast_walk
+    prog = ctx.prog
+    f = prog.func("NCvcmaxcontig")
+    key = "CONTIG:NCvcmaxcontig"
+    if f is None:
+        ctx.unrecognised("CONTIG", key, "-", "NCvcmaxcontig not found")
+        return 0
+    origin = f.params[2][0] if len(f.params) > 2 else "origin"
+    # locals that walk the origin array
+    orig_vars = {origin}
+    for _b, _i, _s, x in f.nodes(True):
+        if x[0] == "asg" and x[1] == "=" and kind(strip(x[2])) == "var" and any(y[0] == "var" and y[1] in orig_vars for y in walk(x[3], True)):
+            orig_vars.add(strip(x[2])[1])
+    stops = []
+
+    def vis(nn, st):
+        if nn[0] == "if" and any(a[0] == "for" for a in st):
+            then = nn[2]
+            kids = then[1] if then[0] == "block" else [then]
+            if any(k[0] == "break" for k in kids):
+                stops.append(nn)
+        return True
+    ast_walk(f.raw.get("ast"), vis)
+    if not stops:
+        ctx.unrecognised("CONTIG", key, f.where(), "no `if (...) break;` in the dimension loop")
+        return 0
+    bad = [s for s in stops if any(y[0] == "var" and y[1] in orig_vars for y in walk(s[1], True))]
+    if bad:
+        ctx.violated("CONTIG", key, f.where(bad[0][4]), "the test that ends the merge of dimensions, `%s`, depends on the start coordinate: a slab from a non-zero start to the end of a "
+                     "dimension is treated as covering the whole dimension" % render(bad[0][1])[:60])
+    else:
+        ctx.holds("CONTIG", key, f.where(stops[0][4]), "`%s` compares the edge with the full dimension" % render(stops[0][1])[:50], nontrivial=True)
+    return 1
